@@ -1,7 +1,7 @@
 (* Extraction of the executable model for the correspondence check.
    ExtrOcamlBasic only: N, Z, positive, nat stay the extracted inductives. *)
 From Coq Require Import Extraction ExtrOcamlBasic.
-From RL Require Import UData Uax29 Utf8 History HistFile Direct Completion.
+From RL Require Import UData Uax29 Utf8 History HistFile Direct Completion LineBufferOps.
 
 Extraction Blacklist List String Int.
 
@@ -15,4 +15,6 @@ Extraction "model.ml"
   (* direct input *)
   direct_all bracket_validator apply_bs_impl apply_bs
   (* completion *)
-  complete_path longest_common_prefix unescape escape extract_word find_unclosed_quote.
+  complete_path longest_common_prefix unescape escape extract_word find_unclosed_quote
+  (* line buffer *)
+  lb_run lb_apply mkLb move_to_line_up move_to_line_down.
